@@ -232,3 +232,37 @@ Theorem C19_check_run_sound : forall en scripts tr, check_run en scripts tr = tr
              (en = true -> scan None tr = Some None).
 Proof. exact check_run_sound. Qed.
 Print Assumptions C19_check_run_sound.
+
+(* ---- the lock object across re-opens of the connection (Lock.v layer D) ------------------------ *)
+(* tie (ast, whole class bodies of BaseChannel + Channel / AsyncChannel, reachable or not): nothing but
+   `__init__` binds or deletes `channel_lock` — open(), close() ... leave the lock object alone *)
+Theorem C19_gen_lock_identity : gen_lock_rebound_sync = false /\ gen_lock_rebound_async = false.
+Proof. exact (conj eq_refl eq_refl). Qed.
+Print Assumptions C19_gen_lock_identity.
+
+(* any number of callers, any number of re-opens (`channel.open()`, by anybody, at any time), failures
+   and retries, callers queued on the lock meanwhile: at most one caller holds the channel lock in
+   every reachable configuration, and a transport event happens only while its caller is that holder *)
+Theorem C19_reopen_mutual_exclusion_sync : forall n tr cf,
+  oreplay gen_lock_rebound_sync (oinit n) tr = Some cf ->
+  holders cf <= 1 /\
+  forall pre c post, tr = pre ++ OIo c :: post ->
+    exists cf' g, oreplay gen_lock_rebound_sync (oinit n) pre = Some cf' /\
+                  nth_error (o_sts cf') c = Some (OHold g) /\ holders cf' = 1.
+Proof. exact (reopen_mutual_exclusion gen_lock_rebound_sync eq_refl). Qed.
+Print Assumptions C19_reopen_mutual_exclusion_sync.
+
+Theorem C19_reopen_mutual_exclusion_async : forall n tr cf,
+  oreplay gen_lock_rebound_async (oinit n) tr = Some cf ->
+  holders cf <= 1 /\
+  forall pre c post, tr = pre ++ OIo c :: post ->
+    exists cf' g, oreplay gen_lock_rebound_async (oinit n) pre = Some cf' /\
+                  nth_error (o_sts cf') c = Some (OHold g) /\ holders cf' = 1.
+Proof. exact (reopen_mutual_exclusion gen_lock_rebound_async eq_refl). Qed.
+Print Assumptions C19_reopen_mutual_exclusion_async.
+
+(* the full statement (whatever open() does to the attribute) is false: with a lock object recreated on
+   open, a caller queued on the old object and the retry on the new one hold the lock together *)
+Theorem C19_reopen_recreated_lock_refuted : ~ reopen_exclusive_full.
+Proof. exact reopen_exclusive_refuted. Qed.
+Print Assumptions C19_reopen_recreated_lock_refuted.
